@@ -1,10 +1,12 @@
 (* Props/C06.v — input verification accepts properly signed spends and nothing unauthorised.
-   Statements only; proofs are in Proofs/MultisigP.v and Proofs/VerifyP.v.
+   Statements only; proofs are in Proofs/MultisigP.v, Proofs/VerifyP.v, Proofs/VerifyCompleteP.v,
+   Proofs/TapMultisigP.v, Proofs/VerifyNestedP.v and Proofs/VerifyTapP.v.
    Everything is stated for EVERY signature oracle [so : sigops] (what OP_CHECKSIG etc. answer),
    every hash function, every scriptSig and every witness: acceptance by the model of
    Tx.verify_input implies the authorisation predicate of the spent output type. *)
 From V Require Import Base.Prelude Base.Ints Model.Helper Model.Script Model.Op Model.Interp
-  Model.Pecc Model.Taproot Model.Verify Proofs.MultisigP Proofs.VerifyP Proofs.TapMultisigP Proofs.VerifyCompleteP.
+  Model.Pecc Model.Taproot Model.Verify Proofs.MultisigP Proofs.VerifyP Proofs.TapMultisigP Proofs.VerifyCompleteP
+  Proofs.VerifyNestedP Proofs.VerifyTapP.
 
 (* OP_CHECKMULTISIG's matching loop accepts exactly when the signatures embed, in order, into
    the keys with every pair verifying: m signatures need m distinct keys *)
@@ -169,6 +171,170 @@ Theorem C06_tap_multisig_sound :
 Proof. exact tap_multisig_sound. Qed.
 Print Assumptions C06_tap_multisig_sound.
 
+(* ---------------------------------------------------------------- nested segwit (P2SH-wrapped witness programs) *)
+
+(* the serialised witness program  0x00 <len> <program>  is what Script.parse reads back as  OP_0 <program> *)
+Theorem C06_witness_program_parse : forall l p,
+  zlen p = l -> 1 <= l <= 75 -> parse_cmds (0 :: l :: p) = Ok [Op 0; Push p].
+Proof. exact parse_cmds_prog. Qed.
+Print Assumptions C06_witness_program_parse.
+
+(* P2SH-P2WPKH: a p2sh output is only ever spent by a scriptSig ending in a push of the redeem script b with
+   hash160 b = h; when b is a p2wpkh program OP_0 <p> the scriptSig is EXACTLY that push, the witness is present
+   and a public key hashing to p with a signature the oracle accepts was supplied *)
+Theorem C06_p2sh_p2wpkh_sound :
+  forall C ripemd160 sha1 sha256 hash160 hash256 so c witness ss h,
+  length h = 20%nat ->
+  verify_input C ripemd160 sha1 sha256 hash160 hash256 so c witness ss (p2sh_script h) = OTrue ->
+  exists pre b cs, ss = pre ++ [Push b] /\ hash160 b = h /\ parse_cmds b = Ok cs /\
+    (is_p2wpkh cs = true ->
+     pre = [] /\ witness <> [] /\
+     exists p sec sg, cs = p2wpkh_script p /\ hash160 sec = p /\ so_checksig so sec sg = Ok true).
+Proof. exact p2sh_p2wpkh_sound. Qed.
+Print Assumptions C06_p2sh_p2wpkh_sound.
+
+(* the same with the redeem script named in the hypotheses *)
+Theorem C06_p2sh_p2wpkh_sound_direct :
+  forall C ripemd160 sha1 sha256 hash160 hash256 so c witness pre b h p,
+  length h = 20%nat -> length p = 20%nat -> parse_cmds b = Ok (p2wpkh_script p) ->
+  verify_input C ripemd160 sha1 sha256 hash160 hash256 so c witness (pre ++ [Push b]) (p2sh_script h) = OTrue ->
+  pre = [] /\ hash160 b = h /\ witness <> [] /\
+  exists sec sg, hash160 sec = p /\ so_checksig so sec sg = Ok true.
+Proof. exact p2sh_p2wpkh_sound_direct. Qed.
+Print Assumptions C06_p2sh_p2wpkh_sound_direct.
+
+(* the canonical P2SH-P2WPKH spend: scriptSig = <0x00 0x14 hash160(sec)>, witness = <sig> <sec> *)
+Theorem C06_p2sh_p2wpkh_complete :
+  forall C ripemd160 sha1 sha256 hash160 hash256 so c sec sg,
+  let redeem := 0 :: 20 :: hash160 sec in
+  length (hash160 sec) = 20%nat -> length (hash160 redeem) = 20%nat -> sg <> [] ->
+  so_checksig so sec sg = Ok true ->
+  verify_input C ripemd160 sha1 sha256 hash160 hash256 so c [sg; sec]
+    [Push redeem] (p2sh_script (hash160 redeem)) = OTrue.
+Proof. exact p2sh_p2wpkh_complete. Qed.
+Print Assumptions C06_p2sh_p2wpkh_complete.
+
+(* P2SH-P2WSH, any witness script: the last witness item hashes to the program and is run after the other items *)
+Theorem C06_p2sh_p2wsh_sound :
+  forall C ripemd160 sha1 sha256 hash160 hash256 so c witness ss h,
+  length h = 20%nat ->
+  verify_input C ripemd160 sha1 sha256 hash160 hash256 so c witness ss (p2sh_script h) = OTrue ->
+  exists pre b cs, ss = pre ++ [Push b] /\ hash160 b = h /\ parse_cmds b = Ok cs /\
+    (is_p2wsh cs = true ->
+     pre = [] /\ witness <> [] /\
+     exists x, cs = p2wsh_script x /\ sha256 (last witness []) = x /\
+       exists wcs fuel, parse_cmds (last witness []) = Ok wcs /\
+         vloop C ripemd160 sha1 sha256 hash160 hash256 so c witness fuel
+           (map Push (removelast witness) ++ wcs) [] [] (fl_off false) = OTrue).
+Proof. exact p2sh_p2wsh_sound. Qed.
+Print Assumptions C06_p2sh_p2wsh_sound.
+
+(* P2SH-P2WSH m-of-n: m signatures, each verifying under a different key of the witness script, in key order *)
+Theorem C06_p2sh_p2wsh_multisig_sound :
+  forall C ripemd160 sha1 sha256 hash160 hash256 so c sec_ok ver,
+  (forall secs sigs, so_multisig so secs sigs = so_multisig_loop sec_ok ver secs sigs) ->
+  forall witness ss h m keys,
+  length h = 20%nat -> 1 <= m <= 16 -> 1 <= zlen keys <= 16 ->
+  verify_input C ripemd160 sha1 sha256 hash160 hash256 so c witness ss (p2sh_script h) = OTrue ->
+  exists pre b cs, ss = pre ++ [Push b] /\ hash160 b = h /\ parse_cmds b = Ok cs /\
+    (is_p2wsh cs = true ->
+     pre = [] /\ witness <> [] /\
+     exists x, cs = p2wsh_script x /\ sha256 (last witness []) = x /\
+       (parse_cmds (last witness []) = Ok (multisig_script m keys) ->
+        exists sigs, zlen sigs = m /\ embeds ver sigs (rev keys))).
+Proof. exact p2sh_p2wsh_multisig_sound. Qed.
+Print Assumptions C06_p2sh_p2wsh_multisig_sound.
+
+(* the canonical P2SH-P2WSH m-of-n spend: scriptSig = <0x00 0x20 sha256(ws)>,
+   witness  <> <sig_1> .. <sig_m> <witness script> *)
+Theorem C06_p2sh_p2wsh_multisig_complete :
+  forall C ripemd160 sha1 sha256 hash160 hash256 so c m keys sigs ws,
+  let redeem := 0 :: 32 :: sha256 ws in
+  1 <= m <= 16 -> 1 <= zlen keys <= 16 -> zlen sigs = m -> nonempty_sigs sigs = true ->
+  length (sha256 ws) = 32%nat -> length (hash160 redeem) = 20%nat ->
+  parse_cmds ws = Ok (multisig_script m keys) ->
+  so_multisig so (rev keys) (rev sigs) = Ok true ->
+  verify_input C ripemd160 sha1 sha256 hash160 hash256 so c ([] :: sigs ++ [ws])
+    [Push redeem] (p2sh_script (hash160 redeem)) = OTrue.
+Proof. exact p2sh_p2wsh_multisig_complete. Qed.
+Print Assumptions C06_p2sh_p2wsh_multisig_complete.
+
+(* ---------------------------------------------------------------- taproot script path, k-of-n leaf *)
+
+(* soundness of the leaf without assuming anything about the initial stack: one element is popped per key,
+   every (key, element) pair could be evaluated and exactly k of them verify *)
+Theorem C06_tap_multisig_sound_gen :
+  forall C ripemd160 sha1 sha256 hash160 hash256 so c witness k x1 xs fuel s a,
+  1 <= k <= 16 ->
+  vloop C ripemd160 sha1 sha256 hash160 hash256 so c witness fuel
+    (tap_multisig_script k (x1 :: xs)) s a (fl_off true) = OTrue ->
+  exists sigs r, s = sigs ++ r /\ length sigs = S (length xs) /\ count_ok so (x1 :: xs) sigs = Ok k.
+Proof. exact tap_multisig_sound_gen. Qed.
+Print Assumptions C06_tap_multisig_sound_gen.
+
+(* completeness of the CHECKSIG / CHECKSIGADD chain: accepted whenever exactly k pairs verify *)
+Theorem C06_tap_multisig_complete :
+  forall C ripemd160 sha1 sha256 hash160 hash256 so c witness k x1 xs sigs r a extra,
+  1 <= k <= 16 -> count_ok so (x1 :: xs) sigs = Ok k ->
+  vloop C ripemd160 sha1 sha256 hash160 hash256 so c witness (2 * length (x1 :: xs) + 2 + extra)
+    (tap_multisig_script k (x1 :: xs)) (sigs ++ r) a (fl_off true) = OTrue.
+Proof. exact tap_multisig_complete. Qed.
+Print Assumptions C06_tap_multisig_complete.
+
+Theorem C06_tap_multisig_iff :
+  forall C ripemd160 sha1 sha256 hash160 hash256 so c witness k x1 xs sigs r a,
+  1 <= k <= 16 -> length sigs = S (length xs) ->
+  ((exists fuel, vloop C ripemd160 sha1 sha256 hash160 hash256 so c witness fuel
+                   (tap_multisig_script k (x1 :: xs)) (sigs ++ r) a (fl_off true) = OTrue)
+   <-> count_ok so (x1 :: xs) sigs = Ok k).
+Proof. exact tap_multisig_iff. Qed.
+Print Assumptions C06_tap_multisig_iff.
+
+(* the canonical witness stack: a verifying signature in the slots of the k signers and an EMPTY element in the
+   other slots (op_checksigadd_schnorr skips an empty signature and leaves the counter unchanged) *)
+Theorem C06_tap_multisig_complete_canonical :
+  forall C ripemd160 sha1 sha256 hash160 hash256 so c witness k x1 xs sigs r a extra,
+  1 <= k <= 16 ->
+  Forall2 (fun x sg => so_xonly_ok so x = true /\
+             (sg = [] \/ so_schnorr so x (fst (schnorr_split sg)) (snd (schnorr_split sg)) = Ok true))
+          (x1 :: xs) sigs ->
+  zlen (filter (fun sg : bytes => match sg with [] => false | _ => true end) sigs) = k ->
+  vloop C ripemd160 sha1 sha256 hash160 hash256 so c witness (2 * length (x1 :: xs) + 2 + extra)
+    (tap_multisig_script k (x1 :: xs)) (sigs ++ r) a (fl_off true) = OTrue.
+Proof. exact tap_multisig_complete_canonical. Qed.
+Print Assumptions C06_tap_multisig_complete_canonical.
+
+(* Tx.verify_input on a witness-v1 output spent through the script path with a k-of-n leaf: the control block
+   commits the leaf to the output key x AND exactly k of the n (key, witness element) pairs verify.  The leaf's
+   initial stack is the (annex-stripped) witness without its last two items, last item on top. *)
+Theorem C06_p2tr_tap_multisig_sound :
+  forall C ripemd160 sha1 sha256 hash160 hash256 so c witness ss x k x1 xs ts,
+  length x = 32%nat -> 1 <= k <= 16 ->
+  verify_input C ripemd160 sha1 sha256 hash160 hash256 so c witness ss (p2tr_script x) = OTrue ->
+  let items := annex_stripped witness in
+  (2 <= length items)%nat ->
+  witness_tap_script items = Ok ts -> s_cmds ts = tap_multisig_script k (x1 :: xs) ->
+  ss = [] /\ script_path_commit_check C sha256 x witness = Ok true /\
+  exists sigs r, rev (firstn (length items - 2) items) = sigs ++ r /\ length sigs = S (length xs) /\
+    count_ok so (x1 :: xs) sigs = Ok k.
+Proof. exact p2tr_tap_multisig_sound. Qed.
+Print Assumptions C06_p2tr_tap_multisig_sound.
+
+(* and the converse: a script-path witness  <s_n> .. <s_1> <leaf script> <control block> [<annex>]  whose control
+   block passes the commitment check and in which exactly k pairs verify is accepted (for every n: the fuel of
+   evaluate_full is shown to suffice) *)
+Theorem C06_p2tr_tap_multisig_complete :
+  forall C ripemd160 sha1 sha256 hash160 hash256 so c witness x k x1 xs ts,
+  length x = 32%nat -> 1 <= k <= 16 ->
+  let items := annex_stripped witness in
+  length items = (S (length xs) + 2)%nat ->
+  script_path_commit_check C sha256 x witness = Ok true ->
+  witness_tap_script items = Ok ts -> s_cmds ts = tap_multisig_script k (x1 :: xs) ->
+  count_ok so (x1 :: xs) (rev (firstn (S (length xs)) items)) = Ok k ->
+  verify_input C ripemd160 sha1 sha256 hash160 hash256 so c witness [] (p2tr_script x) = OTrue.
+Proof. exact p2tr_tap_multisig_complete. Qed.
+Print Assumptions C06_p2tr_tap_multisig_complete.
+
 (* non-vacuity: with an oracle that accepts one (key, signature) pair the hypotheses of the
    soundness theorems are met by a concrete accepted spend *)
 Definition ex_so : sigops :=
@@ -181,6 +347,23 @@ Example C06_nonvacuous_p2pkh :
     {| t_locktime := 0; t_sequence := 0; t_version := 2 |} []
     [Push [7; 1]; Push [2]] (p2pkh_script (ex_h160 [2])) = OTrue.
 Proof. apply p2pkh_complete; [discriminate|reflexivity]. Qed.
+
+Example C06_nonvacuous_p2sh_p2wpkh :
+  verify_input secp256k1 (fun x => x) (fun x => x) (fun x => x) ex_h160 (fun x => x) ex_so
+    {| t_locktime := 0; t_sequence := 0; t_version := 2 |} [[7; 1]; [2]]
+    [Push (0 :: 20 :: ex_h160 [2])] (p2sh_script (ex_h160 (0 :: 20 :: ex_h160 [2]))) = OTrue.
+Proof. apply p2sh_p2wpkh_complete; [reflexivity|reflexivity|discriminate|reflexivity]. Qed.
+
+(* 2-of-3 leaf: signatures for keys 1 and 3, an empty element for key 2 (stack: the element for x1 on top) *)
+Definition ex_so_tap : sigops :=
+  {| so_checksig := fun _ _ => Ok false; so_multisig := fun _ _ => Ok false; so_xonly_ok := fun _ => true;
+     so_schnorr := fun x sg _ => Ok (beq sg (9 :: x)) |}.
+Example C06_nonvacuous_tap_multisig :
+  exists fuel,
+  vloop secp256k1 (fun x => x) (fun x => x) (fun x => x) ex_h160 (fun x => x) ex_so_tap
+    {| t_locktime := 0; t_sequence := 0; t_version := 2 |} [] fuel
+    (tap_multisig_script 2 [[1]; [2]; [3]]) ([[9; 1]; []; [9; 3]] ++ []) [] (fl_off true) = OTrue.
+Proof. eexists. apply tap_multisig_complete; [lia|reflexivity]. Qed.
 
 (* The constants written in the model are the constants of the SOURCE: coq/Generated/SrcConsts.v is regenerated
    from /repo/buidl/*.py by harness/gen_coq_consts.py on every run; the statements are spelled out in
